@@ -56,6 +56,11 @@ def judge(ctx, kind, n, m, res, rp):
         check(ctx, f"pc(sample with counts {n})", lambda: prs.pc(x), res["pc"], "pc", rp)
         xi = np.repeat(np.arange(len(n)) + 3, n)
         check(ctx, f"pc(int sample with counts {n})", lambda: prs.pc(xi), res["pc"], "pc/int", rp)
+        import pandas as pd
+        rows = [(LABELS[i % len(LABELS)] + str(i), None if i % 2 else "CAV" + str(i)) for i, c in enumerate(n) for _ in range(c)]
+        ctx.rng.shuffle(rows)
+        tab = pd.DataFrame(rows, columns=["CDR3B", "CDR3A"])
+        check(ctx, f"pc(table sample with counts {n}, every second category with a missing chain)", lambda: prs.pc(tab), res["pc"], "pc/table_missing", rp)
     if kind == "var":
         check(ctx, f"varpc_n(np.array({n}))", lambda: prs.varpc_n(np.array(n)), res["var"], "varpc_n", rp)
         own = np.array(n, dtype=float)
